@@ -420,7 +420,8 @@ class FlowProfile(OpProfile):
     """
 
     def __init__(self, spec, *, op_lists, whens=None,
-                 stop_between_only=True, **kw):
+                 stop_between_only=True, pre_boot=None, **kw):
+        self.pre_boot = pre_boot or wrap_c08
         self.op_lists = op_lists
         self.whens = list(whens or ['any'] * len(op_lists))
         # a restart after the last command cannot be followed by a new flow:
@@ -438,6 +439,12 @@ class FlowProfile(OpProfile):
                 return []
             return self.op_lists[i]
         super().__init__(spec, ops=ops, op_budget=len(op_lists), **kw)
+
+    def make_world(self):
+        # TaskPool.__init__ hands the *bound* spawn_on_output to the task
+        # events manager: the wrappers must exist before the first boot
+        self.pre_boot()
+        return super().make_world()
 
     def operator_events(self, w):
         out = super().operator_events(w)
